@@ -657,6 +657,32 @@ def parse_impl(header, body, defs, impls, rows):
     impls[tname] = "IFields %s" % ("true" if with_class else "false")
 
 
+# dukebox/src/storage/zip_impls.rs, `impl JarEntry for ZipFile`: which entries of an archive are directories, classes
+# (handed to remap_class) and other entries (copied).  The whole decision is pinned; the suffix literal is read.
+ZIP_ENTRY_ENUM = (
+    r'fnto_jar_entry_enum\(mutself\)->Result<JarEntryEnum<Self::Class,Self::Other>>\{'
+    r'Ok\(ifself\.is_dir\(\)\{JarEntryEnum::Dir\}else\{'
+    r'letdata=\{letcapacity=self\.size\(\)\.try_into\(\)\.unwrap_or_else\(\|x\|\{info!\([^;]*\);0\}\);'
+    r'letmutdata=Vec::with_capacity\(capacity\);self\.read_to_end\(&mutdata\)\?;data\};'
+    r'ifself\.name\(\)\.ends_with\("(?P<zip_suffix>[^"\\]*)"\)\{JarEntryEnum::Class\(VecClass\(data\)\)\}else\{JarEntryEnum::Other\(data\)\}'
+    r'\}\)\}'
+)
+
+
+def parse_zip_impls(consts, errs):
+    path = os.path.join(REPO, "dukebox", "src", "storage", "zip_impls.rs")
+    try:
+        sq = squash(strip_comments(open(path).read()))
+    except OSError as ex:
+        errs.append("zip_impls.rs: %r" % ex)
+        return
+    ms = list(re.finditer(ZIP_ENTRY_ENUM, sq))
+    if len(ms) != 1 or sq.count("fnto_jar_entry_enum") != 1:
+        errs.append("zip_impls.rs: fn to_jar_entry_enum of `impl JarEntry for ZipFile` not recognised (directory / `.class` suffix / other)")
+        return
+    consts["zip_suffix"] = ms[0].group("zip_suffix")
+
+
 def parse_remap(defs, errs):
     path = os.path.join(REPO, "dukebox", "src", "remap.rs")
     raw = open(path).read()
@@ -702,6 +728,7 @@ def parse_remap(defs, errs):
     for f in FREE_FNS:
         if f not in seen_fns:
             errs.append("remap.rs: fn %s not found" % f)
+    parse_zip_impls(consts, errs)
     if consts.get("suffix") is None or consts.get("suffix") != consts.get("suffix2"):
         errs.append("remap.rs: entry-name suffix stripped (%r) and appended (%r) differ" % (consts.get("suffix"), consts.get("suffix2")))
     return impls, rows, consts, hashlib.sha256(raw.encode()).hexdigest()
@@ -768,6 +795,9 @@ def emit(defs, impls, rows, consts, digest):
     L.append("")
     L.append("(* remap_jar_entry_name_java: the suffix that is stripped and appended again *)")
     L.append("Definition class_suffix : list N := %s%%N." % coq_str(consts.get("suffix") or ""))
+    L.append("")
+    L.append("(* zip_impls.rs to_jar_entry_enum: the suffix of the entries that are read as classes (others are copied) *)")
+    L.append("Definition zip_class_suffix : list N := %s%%N." % coq_str(consts.get("zip_suffix") or ""))
     L.append("")
     return "\n".join(L)
 
